@@ -1190,8 +1190,13 @@ def _same_values(raw_a, raw_b):
             if not numpy.array_equal(a.astype(float), b.astype(float), equal_nan=True):
                 return False
         except (TypeError, ValueError):
-            if a.tolist() != b.tolist():
-                return False
+            # object cells (text copied into the matrix by a factor that is not a data column): a missing cell is NaN in
+            # both results and NaN != NaN, so compare cell by cell with "both null" counting as equal
+            la, lb = a.ravel().tolist(), b.ravel().tolist()
+            for x, y in zip(la, lb):
+                both_null = (x is None or x != x) and (y is None or y != y)
+                if not both_null and x != y:
+                    return False
     return True
 
 
